@@ -51,6 +51,15 @@ def c07(tier, seed):
     else:
         for w in (1, 2, 3, 5, 6, 7):
             cmds.append({"op": "yuv_sweep", "ys": [rng.choice(ys if k % 2 else low) for k in range(w)]})
+    # flat chroma: all chroma samples of the row equal (the sweeps above make neighbouring chroma samples differ, so a whole
+    # group of ONE colour - all neutral, say - never occurs in them); the darkest and the brightest luma values together
+    lows = sorted(v for v in ys if v <= 16)[:4]
+    highs = sorted(v for v in ys if v >= 235)[-4:]
+    for grp in ([lows, highs, [rng.choice(ys) for _ in range(4)]] if tier == "quick" else
+                [lows, highs] + [ys[i:i + 4] for i in range(0, 256, 4)]):
+        if len(grp) == 4:
+            cmds.append({"op": "yuv_sweep", "ys": grp, "same": True})
+            cmds.append({"op": "yuv_sweep", "ys": grp[:3] + grp, "same": True})
     rng.shuffle(cmds)       # and widths alternate from call to call
     # ... also inside one driver process: every sweep is preceded, in the same process, by the conversion of a wider picture
     # with other colours (a converter that keeps anything from call to call must not let it reach the next picture)
@@ -404,6 +413,16 @@ def c02(tier, seed):
                 p = dict(hdr)
                 p["mbs"] = [pg.coded_mb(rng, 4, ver == 1, dq=dq, big=False), pg.coded_mb(rng, rng.choice([3, 4]), ver == 1, big=False)]
                 single(p)
+    # ... and over three macroblocks at the edges of 1..31: the value carried on after a clip is the clipped one
+    for q in [1, 2, 30, 31]:
+        for dq1 in [-2, -1, 1, 2]:
+            for dq2 in [-2, -1, 1, 2]:
+                ver = (q + dq1 + dq2) % 2
+                hdr = pg.header("sor", "I", tr=0, q=q, w=48, h=16, ver=ver)
+                p = dict(hdr)
+                p["mbs"] = [pg.coded_mb(rng, 4, ver == 1, dq=dq1, big=False, shape="dense"), pg.coded_mb(rng, 4, ver == 1, dq=dq2, big=False, shape="dense"),
+                            pg.coded_mb(rng, 3, ver == 1, big=False, shape="dense")]
+                single(p)
     # (f) every sparsity shape, (g) stuffing and extra-information bytes
     for shape in ["one", "row", "col", "dense", "sparse"]:
         for ver in (0, 1):
@@ -499,6 +518,14 @@ def c03(tier, seed):
         H.new()
         H.decode(pg.inter_picture(rng, sor_hdr(rng, "P", 1, 16, 16, ver), big=False))
         H.decode(pg.inter_picture(rng, sor_hdr(rng, "D", 2, 16, 16, ver), pt="D", mix=[1, 0, 0, 0, 0, 0, 0]))
+        # ... also when the data ends early (the macroblocks that are missing are predicted ones): a header alone, and INTRA
+        # macroblocks only up to the cut
+        for cut in (0, 1, 2, 5):
+            for t in ("P", "D"):
+                H.new()
+                H.decode(pg.inter_picture(rng, sor_hdr(rng, t, 3, 48, 32, ver), pt=t, truncate_after=cut, big=False, mix=[0, 0, 0, 0, 3, 1, 0]))
+                H.op("newreader")
+                H.decode(pg.intra_picture(rng, sor_hdr(rng, "I", 4, 48, 32, ver), big=False, shape="one"))
     # (b) every macroblock-type mix on up to three macroblocks, vectors crossing every edge, all half-sample phases
     kinds = ["skip", 0, 1, 2, 3, 4, 5]
     mixes = [(a,) for a in kinds] + [(a, b) for a in kinds for b in kinds]
@@ -795,6 +822,17 @@ def c06(tier, seed):
         pt2 = rng.choice(["P", "D"])
         H.decode(pg.inter_picture(rng, pg.header("sor", pt2, tr=rng.choice([hdr["tr"], hdr["tr"], rng.randrange(256)]), q=rng.randrange(1, 32),
                                                  w=w, h=h, ver=ver, db=rng.randrange(2)), pt=pt2, big=False, shape="one"))
+    # a predicted picture that carries its own (different) size and needs no prediction (every macroblock INTRA) is decoded
+    # at ITS header's size, not at the size of the picture before it
+    for i in range(12 if not thorough else 200):
+        ver = rng.randrange(2)
+        w, h = rng.choice([(16, 16), (32, 16), (17, 9), (40, 24)])
+        w2, h2 = rng.choice([(32, 16), (16, 32), (48, 16), (16, 8), (9, 17), (24, 40)])
+        H.new()
+        H.decode(pg.intra_picture(rng, sor_hdr(rng, "I", 1, w, h, ver), big=False, shape="one"))
+        H.op("newreader")
+        pt2 = rng.choice(["P", "P", "D"])
+        H.decode(pg.inter_picture(rng, sor_hdr(rng, pt2, 2, w2, h2, ver), pt=pt2, big=False, shape="one", mix=[0, 0, 0, 0, 3, 1, 0]))
     # standard mode: pictures whose header does not retransmit OPPTYPE (UFEP = 000) have the size of the picture before
     # them - also when that picture inherited its size itself (chains), and after a baseline header
     for i in range(24 if not thorough else 400):
@@ -1406,6 +1444,21 @@ def c17(tier, seed):
         c1 = stream_cmds(x, one_reader=True)
         cmds.append({"op": "threads", "insts": [c1], "order": [0] * len(c1), "single": True, "fresh": True, "groups": [],
                      "mode": "alone-one-reader", "xkey": key, "xinst": 0, "h": len(cmds)})
+    # (e) many instances alive at once, each holding a very large picture (more than 2^28 samples in the process altogether):
+    #     whatever is counted, pooled or capped per process must not make the twelfth instance fare differently from the first
+    hdrL = pg.header("sor", "I", tr=1, q=rng.randrange(1, 32), w=4097, h=4097, ver=0, sc=1)
+    pL = dict(hdrL)
+    mbL = pg.coded_mb(rng, 3, False, cbpc=0, cbpy=0, big=False)
+    mbL["b"] = [{"dc": rng.randrange(1, 128), "ev": []} for _ in range(6)]
+    pL["mbs"] = [mbL]
+    pL["rep"] = pg.nmb(pL)
+    encL = run.encode([{"op": "x", "pic": pL, "opaque": True}])[0]
+    ninst = 12
+    instL = [[{"op": "new", "d": 0, "sor": True, "tag": -1}, {"op": "newreader", "d": 0, "tag": 0},
+              {"op": "decode", "d": 0, "bytes": encL["bytes"], "opaque": True, "planes": False, "why": "very-large-picture", "tag": 0}]
+             for _ in range(ninst)]
+    cmds.append({"op": "threads", "insts": instL, "order": [i for _ in range(3) for i in range(ninst)], "single": True, "fresh": True,
+                 "groups": [list(range(ninst))], "mode": "many-large-instances", "h": len(cmds)})
     run.notes["cross_process_pairs"] = len(sel_pairs)
     # fresh processes between repetitions: one driver process per shard, many shards
     run.drive_and_validate(cmds, "TraceDecoder", nshards=32 if tier == "quick" else 64, post_fn=split_threads, sample=1,
